@@ -26,6 +26,8 @@ func init() {
 			"ComplementDense, Complement view, LineGraphDense, InducedSubgraph view, SplitEdge, Contract (inputs: ALL labelled graphs n <= 5 with all vertex pairs, all classes n = 6 (thorough: and n = 7) in a random labelling, seeded graphs up to 40 vertices; as DenseGraph, SparseGraph and as live views) is read through N, IsEdge (all ordered pairs incl. the diagonal), M, Degrees, Neighbours " +
 			"and judged: loop-free, symmetric, M / Degrees / Neighbours equal to the adjacency, edge set equal to the independent definition (labelled where the documentation fixes the numbering, else up to isomorphism); caller slices are modified after NewDense / NewSparse / decoders and the value re-read; views are re-read after the underlying graph changed. " +
 			"CHAINS of Contract / SplitEdge applied to ONE value: all chains of <= 3 steps (all vertex pairs) on all labelled graphs n <= 4 and on ~80 named generator / decoder values, seeded chains of 2..5 steps on graphs up to 12 vertices, started from values of every origin (struct literal, NewDense, NewSparse, edits, Graph6/Sparse6/Multicode/Pruefer decoders, ComplementDense, LineGraphDense, Copy, InducedSubgraph, RemoveVertex of a supergraph, generators), with a Complement view and an InducedSubgraph view taken before the chain and re-read after the steps. " +
+			"EDIT CHAINS UNDER LIVE VIEWS: Complement(g), InducedSubgraph(g,V) (several), Complement(InducedSubgraph(g,V)), InducedSubgraph(Complement(g),V) are taken and completely read (also vertex by vertex in turn) BEFORE g is edited (AddEdge, RemoveEdge, move an edge, add-then-remove, swap two edges - the last three keep M -, in the seeded part also Contract / SplitEdge / AddVertex / RemoveVertex), and completely re-read after the steps (some steps are deliberately left unread): all chains of <= 2 edits on all labelled graphs n <= 4, seeded chains of 2..6 steps up to 12 vertices. " +
+			"INDEPENDENCE of several results: MulticodeDecodeMultiple (all streams of 2 / 3 records over 9 small graphs incl. n = 0, 1, seeded streams of 2..5 records) and source + Copy + InducedSubgraph copies of one graph: one value is edited (AddVertex, RemoveVertex, edge edits, Contract, SplitEdge), all values are re-read against their own models after every step. " +
 			"non-trivial = judged value with n >= 3 and m >= 1; distinct = hash of (API, representation, concrete input)",
 		Assumptions: []string{
 			"oracle: rg.G bit matrix + definitions in ref.go written from the documentation strings / textbook definitions (self-checked against published counts and automorphism group orders)",
@@ -45,6 +47,9 @@ func init() {
 			"families_equal_to_reference_numbering",
 			"judged:chain|dense", "judged:chain|sparse", "chains of length 2", "chains of length 3",
 			"chains with a vertex added right after a non-last vertex was removed",
+			"edit chains under live views", "probe:views re-read after edits that changed edges but not the number of edges", "probe:views re-read after several unread edit steps", "probe:views read vertex by vertex in turn",
+			"judged:edit-chain|dense|view I", "judged:edit-chain|sparse|view I", "judged:edit-chain|dense|view C", "judged:edit-chain|dense|view CI", "judged:edit-chain|dense|view IC",
+			"probe:MulticodeDecodeMultiple: other results re-read after one was edited", "probe:copies-of-one-graph|dense: other results re-read after one was edited", "probe:copies-of-one-graph|sparse: other results re-read after one was edited",
 			"probe:chain: Complement view taken before the chain re-read after a step", "probe:chain: InducedSubgraph view taken before the chain re-read after a step",
 		},
 	})
@@ -1208,6 +1213,7 @@ func run(c *engine.Ctx) {
 	us = append(us, pruferUnits(c)...)
 	us = append(us, graphUnits(c)...)
 	us = append(us, chainUnits(c)...)
+	us = append(us, editUnits(c)...)
 	for _, u := range us {
 		u := u
 		c.Unit(u.name, func() { u.f(r) })
